@@ -21,6 +21,11 @@ func init() {
 		c.MustCross("good-and", c.P.Func("ctl/flow.AndGood"), "sink", isPlainCallTo(sink), OnTrue("ready", FieldIs(ready)))
 		c.MustCross("bad-and", c.P.Func("ctl/flow.AndBad"), "sink", isPlainCallTo(sink), OnTrue("ready", FieldIs(ready)))
 	}})
+	registerControl(controlDef{Name: "E2 on defer-spilled return values", Bad: []string{"bad-deferret"}, Good: []string{"good-deferret"}, Run: func(c *Ctx) {
+		check := c.P.FuncObj("ctl/flow.check")
+		c.MustCross("good-deferret", c.P.Func("ctl/flow.DeferRetGood"), "return true", isReturnWith(0, IsConstBool(true)), OnTrue("check", CallTo(check)))
+		c.MustCross("bad-deferret", c.P.Func("ctl/flow.DeferRetBad"), "return true", isReturnWith(0, IsConstBool(true)), OnTrue("check", CallTo(check)))
+	}})
 	registerControl(controlDef{Name: "E3 pairing (defer, explicit, missing)", Bad: []string{"bad-pair"}, Good: []string{"good-pair", "good-pair2"}, Run: func(c *Ctx) {
 		acq := c.P.FuncObj("ctl/flow.acquire")
 		rel := c.P.FuncObj("ctl/flow.release")
